@@ -802,6 +802,27 @@ pub fn c16(rep: &mut Rep, seed: u64) {
             corpus.push(l.join("\n"));
         }
     }
+    // systematic truncations: every line of the valid files cut after each of its fields, with and without the comma that follows (alone and inside the file)
+    {
+        let mut seen: std::collections::HashSet<String> = Default::default();
+        for t in base.iter().take(12).chain(specials.iter().map(|s| s.to_string()).collect::<Vec<String>>().iter()) {
+            let lines: Vec<&str> = t.lines().collect();
+            for (i, l) in lines.iter().enumerate() {
+                let toks: Vec<&str> = l.split(',').collect();
+                if toks.len() < 2 || l.trim_start().starts_with('#') { continue; }
+                for k in 1..toks.len().min(7) {
+                    for tail in ["", ",", ", "] {
+                        let cut = format!("{}{}", toks[..k].join(","), tail);
+                        if !seen.insert(cut.clone()) { continue; }
+                        corpus.push(cut.clone());
+                        let mut whole: Vec<String> = lines.iter().map(|x| x.to_string()).collect();
+                        whole[i] = cut;
+                        corpus.push(whole.join("\n"));
+                    }
+                }
+            }
+        }
+    }
     for text in &corpus {
         rep.evals += 1;
         let t2 = text.clone();
